@@ -45,6 +45,7 @@ From Coq Require Import PrimFloat.
 From Coq Require Import ZArith List Bool Reals Lra Permutation Sorted.
 From BZ Require Import Base.Ops Proofs.Tactics Gen.Point Gen.Line Gen.Quad Gen.Cubic Hand.Shoelace Hand.Clip Proofs.C12.
 Import ListNotations.
+From BZ Require Gen.Sample Gen.Clip Proofs.Bridge6.
 Open Scope R_scope.
 
 Theorem C12_clip_inputs_are_flattened_outlines :
@@ -89,6 +90,15 @@ Proof. exact ex_clip. Qed.
 Theorem C12_ex_far :
   far 40 (P 50 50) (cyc (map zR ex_poly) ++ cyc (map zR ex_poly)).
 Proof. exact ex_far. Qed.
+Theorem C12_clip_tail_gen :
+  forall (T : Type) (O : Ops T) (toZ : T -> option Z) (gclipper : Clip.clip_type -> list (list (Z * Z)) -> list (list (Z * Z)) -> option (list (list (Z * Z)))) (hclipper : cliptype -> list zpoly -> list zpoly -> option (list zpoly)) (flatten2 : segment T -> option (list (seg2 T))), (forall a b : T, eqb O a b = eqb O b a) -> (forall a b c : T, eqb O a b = true -> eqb O b c = true -> eqb O a c = true) -> (forall p q : pt T, eqb O (px p) (px q) = true -> eqb O (py p) (py q) = true -> Point___eq__ O p q = true) -> (forall (ct : Clip.clip_type) (s c : list zpoly), hclipper (Bridge6.ClipBridge.ct_of ct) s c = gclipper ct s c) -> forall (fuel : nat) (pieces1 pieces2 : list (segment T)) (ct : Clip.clip_type) (flat : bool), Forall (Bridge6.ClipBridge.flat_ok O flatten2 fuel) pieces1 -> Forall (Bridge6.ClipBridge.flat_ok O flatten2 fuel) pieces2 -> Bridge6.ClipBridge.g_tail O toZ gclipper fuel pieces1 pieces2 ct flat = Bridge6.ClipBridge.embed (Bridge6.ClipBridge.hand_tail O toZ hclipper flatten2 pieces1 pieces2 (Bridge6.ClipBridge.ct_of ct) flat).
+Proof. exact @Bridge6.ClipBridge.clip_tail_gen. Qed.
+Theorem C12_clip_gen :
+  forall (T : Type) (O : Ops T) (toZ : T -> option Z) (gclipper : Clip.clip_type -> list (list (Z * Z)) -> list (list (Z * Z)) -> option (list (list (Z * Z)))) (hclipper : cliptype -> list zpoly -> list zpoly -> option (list zpoly)) (flatten2 : segment T -> option (list (seg2 T))), (forall a b : T, eqb O a b = eqb O b a) -> (forall a b c : T, eqb O a b = true -> eqb O b c = true -> eqb O a c = true) -> (forall p q : pt T, eqb O (px p) (px q) = true -> eqb O (py p) (py q) = true -> Point___eq__ O p q = true) -> (forall (ct : Clip.clip_type) (s c : list zpoly), hclipper (Bridge6.ClipBridge.ct_of ct) s c = gclipper ct s c) -> forall (K : Type) (fmt_2f : T -> K) (keq : K -> K -> bool) (fuel : nat) (self other : list (segment T)) (ct : Clip.clip_type) (flat : bool) (ints : list (pt T * (segment T * segment T * (T * pt T * T)))) (sl1 sl2 : list (segment T * T)) (pieces1 pieces2 : list (segment T)), Bridge6.ClipBridge.g_isect O fmt_2f keq fuel self other = Some (Sample.Returns (ints, sl1, sl2)) -> Split.Path_splitAtPoints O fuel self sl1 = Some pieces1 -> Split.Path_splitAtPoints O fuel other sl2 = Some pieces2 -> splitAtPoints O self sl1 = Ok pieces1 -> splitAtPoints O other sl2 = Ok pieces2 -> Forall (Bridge6.ClipBridge.flat_ok O flatten2 fuel) pieces1 -> Forall (Bridge6.ClipBridge.flat_ok O flatten2 fuel) pieces2 -> Clip.Path_clip O fmt_2f keq toZ gclipper fuel self other ct flat = Bridge6.ClipBridge.embed (clip O toZ hclipper flatten2 self other sl1 sl2 (Bridge6.ClipBridge.ct_of ct) flat).
+Proof. exact @Bridge6.ClipBridge.clip_gen. Qed.
+Theorem C12_clip_gen_R :
+  forall (K : Type) (fmt_2f : R -> K) (keq : K -> K -> bool) (toZ : R -> option Z) (gclipper : Clip.clip_type -> list (list (Z * Z)) -> list (list (Z * Z)) -> option (list (list (Z * Z)))) (hclipper : cliptype -> list (list (Z * Z)) -> list (list (Z * Z)) -> option (list (list (Z * Z)))) (flatten2 : segment R -> option (list (seg2 R))), (forall (ct : Clip.clip_type) (s c : list (list (Z * Z))), hclipper (Bridge6.ClipBridge.ct_of ct) s c = gclipper ct s c) -> forall (fuel : nat) (self other : list (segment R)) (ct : Clip.clip_type) (flat : bool) (ints : list (pt R * (segment R * segment R * (R * pt R * R)))) (sl1 sl2 : list (segment R * R)) (pieces1 pieces2 : list (segment R)), Bridge6.ClipBridge.g_isect ROps fmt_2f keq fuel self other = Some (Sample.Returns (ints, sl1, sl2)) -> Split.Path_splitAtPoints ROps fuel self sl1 = Some pieces1 -> Split.Path_splitAtPoints ROps fuel other sl2 = Some pieces2 -> splitAtPoints ROps self sl1 = Ok pieces1 -> splitAtPoints ROps other sl2 = Ok pieces2 -> Forall (Bridge6.ClipBridge.flat_ok ROps flatten2 fuel) pieces1 -> Forall (Bridge6.ClipBridge.flat_ok ROps flatten2 fuel) pieces2 -> Clip.Path_clip ROps fmt_2f keq toZ gclipper fuel self other ct flat = Bridge6.ClipBridge.embed (clip ROps toZ hclipper flatten2 self other sl1 sl2 (Bridge6.ClipBridge.ct_of ct) flat).
+Proof. exact @Bridge6.ClipBridge.clip_gen_R. Qed.
 
 Print Assumptions C12_clip_inputs_are_flattened_outlines.
 Print Assumptions C12_selectors_roles.
@@ -104,3 +114,6 @@ Print Assumptions C12_clipper_spec_xor.
 Print Assumptions C12_ex_prepare.
 Print Assumptions C12_ex_clip.
 Print Assumptions C12_ex_far.
+Print Assumptions C12_clip_tail_gen.
+Print Assumptions C12_clip_gen.
+Print Assumptions C12_clip_gen_R.
